@@ -538,6 +538,7 @@ func genC01(g *G) {
 	dsts := []string{"evm", "sub", "btc"}
 	genC01Long(g)
 	genC01Seq(g)
+	genC01HSeq(g)
 	var prev []string
 	emit := func(srcKind, dstKind string, a1, a2 string) {
 		s, d, n, r := g.ids()
